@@ -437,8 +437,9 @@ def replay(path):
 def selftest():
     """Negative controls on the model and the binding:
     (i) each deviation switched on makes TLC report the property it breaks;
-    (ii) a recorded good trace with one corrupted field / one dropped hook event is rejected."""
+    (ii) a recorded good trace with one corrupted field / one dropped hook event is flagged or rejected."""
     ck = vlib.Check(PID + "-selftest", "quick")
+    vlib.OUT = ck.dir
     expect = {"OverwriteClosed": "TerminalIsStable", "LoopsDoneSilent": "ReportsTerminal",
               "HsRunnerDoneWaits": "Released", "StrongRefInConnLoop": "LocalEndsClosed",
               "WaitConnectedBlind": "NoHang", "SigOverwriteClosed": "TerminalIsStable"}
@@ -449,8 +450,55 @@ def selftest():
                phases=["offerMade", "dtlsHandshaking", "channelsOpen"])
         res = vlib.tlc("MC_Lifecycle", os.path.basename(cfg), workers=6, timeout=1200, tag=f"self_{dev}")
         os.remove(cfg)
-        got = " ".join(res["errors"])
-        hit = prop in got or (prop in " ".join(res["raw_tail"]))
+        got = " ".join(res["errors"]) + " ".join(res["raw_tail"])
+        hit = prop in got
         print(f"selftest: deviation {dev} violates {prop}: {hit}")
         ok &= hit
+    # binding controls on a freshly recorded trace
+    vlib.build_harness(["life"])
+    sc = {"id": 1, "kind": "c17", "mode": "WebRtc", "victim": "A", "phase": "channelsOpen", "ev1": "Close",
+          "ev2": "none", "at2": "none", "dc": True}
+    runs = run_harness(ck, [sc], "selftest", 1)
+    flat = lc.flatten(runs[0], "A")
+    good, _idx, _res, verdicts = validate(ck, flat, "WebRtc", True, ["EXT"] + RULES, "self")
+    clean = good and not [v for v in verdicts.get(1, []) if v[0] != "EXT"]
+    print("selftest: unmodified trace accepted without broken rules:", clean)
+    ok &= clean
+
+    def mutated(fn):
+        f2 = [dict(r) for r in flat]
+        fn(f2)
+        acc, _i, _r, vd = validate(ck, f2, "WebRtc", True, ["EXT"] + RULES, "self")
+        return acc, {v[0] for v in vd.get(1, [])}
+
+    def corrupt_watch(f2):      # a later watch value says Connected after Closed was seen
+        last = max(i for i, r in enumerate(f2) if r["t"] == "w_peer" and r["peer"] == "Closed")
+        f2.insert(last + 1, dict(f2[last], peer="Connected"))
+    acc, rules = mutated(corrupt_watch)
+    hit = "C17.Stable" in rules
+    print("selftest: watch value Connected after Closed is flagged C17.Stable:", hit)
+    ok &= hit
+
+    def corrupt_closes(f2):     # the channel saw two Close events
+        i = max(i for i, r in enumerate(f2) if r["t"] == "dc_close")
+        f2.insert(i + 1, dict(f2[i]))
+    acc, rules = mutated(corrupt_closes)
+    hit = "C17.CloseOnce" in rules
+    print("selftest: a second Close event is flagged C17.CloseOnce:", hit)
+    ok &= hit
+
+    def drop_pub(f2):           # the hook event of close()'s publication is missing
+        i = next(i for i, r in enumerate(f2) if r["t"] == "pub" and r["site"] == "close")
+        del f2[i]
+    acc, rules = mutated(drop_pub)
+    hit = (not acc) or "EXT" in rules
+    print("selftest: dropping the close publication event is rejected / EXT:", hit)
+    ok &= hit
+
+    def corrupt_end(f2):        # resources not released
+        f2[-1] = dict(f2[-1], b3=False)
+    acc, rules = mutated(corrupt_end)
+    hit = "C17.Released" in rules
+    print("selftest: end record with released=false is flagged C17.Released:", hit)
+    ok &= hit
     raise SystemExit(0 if ok else 2)
